@@ -443,6 +443,8 @@ type caseT struct {
 	HasEvC        bool      `json:",omitempty"` // entry B through a Binder: a per-call WithEvents …
 	EvC           int       `json:",omitempty"` // … with these hooks
 	AllErrors     bool      `json:",omitempty"` // WithAllErrors (with the options of the call / of the Binder)
+	Soak          int       `json:",omitempty"` // a long-lived Binder: this many slice elements are bound through it (same type, same method) before the observed bind
+	Noise         bool      `json:",omitempty"` // with Conc: other goroutines bind the earlier request (Warm / WarmS) all the while
 	Conc          int       `json:",omitempty"` // > 1: the bind is made from this many goroutines at once (first binds of a type)
 	Body          *bodyCase `json:",omitempty"` // entry J (body.go)
 	HTTP          *httpCase `json:",omitempty"` // entry H (body.go)
@@ -611,6 +613,14 @@ func genCase(r *hx.Rand) caseT {
 		}
 	}
 	firstSeen[c.T] = true
+	if c.Binder && (c.Entry == "G" || c.Entry == "T") && c.Opts.MaxSlice < 0 && !c.Opts.CSV && r.Chance(1, 40) {
+		c.Soak = 120000
+	}
+	if c.Conc == 0 && c.HasWarm && (c.Entry == "G" || c.Entry == "T" || c.Entry == "B") && r.Chance(1, 8) {
+		// the bind repeated from several goroutines while others bind the earlier request the same way
+		c.Conc, c.Noise = 3, true
+		c.EvB, c.HasEvC, c.EvC = 0, false, 0
+	}
 	return c
 }
 
@@ -1684,6 +1694,9 @@ func runBinder(ct *corpusType, c *caseT, s *srcT, dest any) (res any, err error,
 }
 
 func emit(id string, c caseT, st *hx.Stats) string {
+	if hung {
+		return "# " + id + " not run: an earlier bind of this process did not return"
+	}
 	defer func() { firstSeen[c.T] = true }()
 	if c.Entry == "J" || c.Entry == "H" {
 		return emitBody(id, c, st)
@@ -1811,6 +1824,28 @@ func emit(id string, c caseT, st *hx.Stats) string {
 	}
 	l.Nat(n).Tok(strings.TrimSpace(tl.String()))
 	in := l.String()
+	if c.Soak > 0 && c.Binder && (c.Entry == "G" || c.Entry == "T") && c.Tag != 1 && c.Tag != 4 {
+		// a Binder that has been in service for a while: many requests with a long list, through the same method
+		func() {
+			defer func() { _ = recover() }()
+			for _, lf := range ct.Shapes[c.Tag].Leaves {
+				if lf.Kind != "slice" || lf.Nested || !strings.ContainsAny(lf.Prim[:1], "ius") {
+					continue
+				}
+				w := c
+				w.Prefill, w.Conc, w.Noise = 0, 0, false
+				w.Src = nil
+				for i := 0; i < 1000; i++ {
+					w.Src = append(w.Src, [2]string{lf.Keys[0], "1"})
+				}
+				ws := buildSrc(w.Tag, w.Src)
+				for n := 0; n < c.Soak; n += 1000 {
+					_, _, _ = run(ct, &w, ws, ct.E.New())
+				}
+				break
+			}
+		}()
+	}
 	if c.HasWarm && c.Entry != "A" {
 		// the earlier request: bound the same way into a scratch value, which is then written through
 		func() {
@@ -1850,7 +1885,7 @@ func emit(id string, c caseT, st *hx.Stats) string {
 		res, err, panicked = outs[0].res, outs[0].err, outs[0].panicked
 		others = outs[1:]
 	default:
-		res, err, panicked = run(ct, &c, s, dest)
+		res, err, panicked = runTimed(ct, &c, s, dest)
 	}
 	outcome := "ok"
 	writeObs := func(l *hx.Line, res any, err error, panicked bool) {
@@ -1880,15 +1915,21 @@ func emit(id string, c caseT, st *hx.Stats) string {
 			render(rv, l)
 		}
 	}
-	var more string
-	for i, o := range others {
-		ol := hx.NewLine(fmt.Sprintf("%s-g%d", id, i+1)).Tok(strings.TrimSpace(in[len(id):]))
-		writeObs(ol, o.res, o.err, o.panicked)
-		writeEvents(ol)
-		more += "\n" + ol.String() + hx.Comment(c)
-	}
 	writeObs(l, res, err, panicked)
 	writeEvents(l)
+	// the other concurrent binds: one more line for every outcome that differs from the first
+	var more string
+	seenObs := map[string]bool{strings.TrimPrefix(l.String(), in): true}
+	for i, o := range others {
+		ol := hx.NewLine(fmt.Sprintf("%s-g%d", id, i+1)).Tok(strings.TrimSpace(in[len(id):]))
+		pre := ol.String()
+		writeObs(ol, o.res, o.err, o.panicked)
+		writeEvents(ol)
+		if k := strings.TrimPrefix(ol.String(), pre); !seenObs[k] {
+			seenObs[k] = true
+			more += "\n" + ol.String() + hx.Comment(c)
+		}
+	}
 	if st != nil {
 		sh := ct.Shapes[c.Tag]
 		st.Case(in[len(id):], (sh.EmbedDepth >= 2 || sh.HasPSM) && c.NT)
@@ -1959,26 +2000,98 @@ func runConcurrent(ct *corpusType, c *caseT, s *srcT) []concOut {
 	if c.Call != nil && c.Call.Layouts != nil {
 		appLayouts(c.Call.Layouts)
 	}
-	slowText.Store(true)
-	defer slowText.Store(false)
-	outs := make([]concOut, c.Conc)
+	reps := 1
+	stop := make(chan struct{})
+	var nwg sync.WaitGroup
+	if c.Noise {
+		// other goroutines bind the earlier request through the same entry point, Binder and options, over and
+		// over, while the observed binds run (each observed goroutine binds several times)
+		reps = 6
+		w := *c
+		w.Src, w.Srcs, w.Prefill = c.Warm, c.WarmS, 0
+		if c.HasWarmCall {
+			w.CallConvs = c.WarmCallConvs
+		}
+		ws := &srcT{}
+		if w.Entry != "B" {
+			ws = buildSrc(w.Tag, w.Src)
+		}
+		for k := 0; k < 2; k++ {
+			nwg.Add(1)
+			go func() {
+				defer nwg.Done()
+				for {
+					select {
+					case <-stop:
+						return
+					default:
+					}
+					_, _, _ = run(ct, &w, ws, ct.E.New())
+				}
+			}()
+		}
+	} else {
+		slowText.Store(true)
+		defer slowText.Store(false)
+	}
+	outs := make([]concOut, c.Conc*reps)
 	start := make(chan struct{})
 	var wg sync.WaitGroup
-	for i := range outs {
-		dest := ct.E.New()
-		if c.Entry != "G" && c.Prefill != 0 {
-			prefill(hx.NewRand(c.Prefill), reflect.ValueOf(dest).Elem())
-		}
+	for i := 0; i < c.Conc; i++ {
 		wg.Add(1)
-		go func(i int, dest any) {
+		go func(i int) {
 			defer wg.Done()
 			<-start
-			outs[i].res, outs[i].err, outs[i].panicked = run(ct, c, s, dest)
-		}(i, dest)
+			for k := 0; k < reps; k++ {
+				dest := ct.E.New()
+				if c.Entry != "G" && c.Prefill != 0 {
+					prefill(hx.NewRand(c.Prefill), reflect.ValueOf(dest).Elem())
+				}
+				o := &outs[i*reps+k]
+				o.res, o.err, o.panicked = run(ct, c, s, dest)
+			}
+		}(i)
 	}
 	close(start)
-	wg.Wait()
+	done := make(chan struct{})
+	go func() { wg.Wait(); close(done) }()
+	select {
+	case <-done:
+	case <-time.After(hangAfter):
+		// a bind that does not return: reported like a panic (the oracle never admits it)
+		hung = true
+		close(stop)
+		return []concOut{{panicked: true}}
+	}
+	close(stop)
+	nwg.Wait()
 	return outs
+}
+
+// hung: a bind of this process did not return within hangAfter; the cases after it are not run
+var hung bool
+
+const hangAfter = 5 * time.Second
+
+// runTimed is run with a watchdog: a bind that does not return is reported like a panic.
+func runTimed(ct *corpusType, c *caseT, s *srcT, dest any) (res any, err error, panicked bool) {
+	type out struct {
+		res      any
+		err      error
+		panicked bool
+	}
+	ch := make(chan out, 1)
+	go func() {
+		r, e, p := run(ct, c, s, dest)
+		ch <- out{r, e, p}
+	}()
+	select {
+	case o := <-ch:
+		return o.res, o.err, o.panicked
+	case <-time.After(hangAfter):
+		hung = true
+		return nil, nil, true
+	}
 }
 
 // firstSeen: the types that have been bound in this process (generation marks the first case of a type)
@@ -2136,6 +2249,9 @@ func fixedCases() []caseT {
 					out = append(out, caseT{T: ct.E.Name, Entry: "B", Binder: true, Gen: gen, Opts: optsT{-1, 2, -1, false, false, nil}, NT: true,
 						Srcs: []srcCase{{Tag: 0, KV: kv}}})
 				}
+				// a Binder that has bound 120 000 slice elements before: the next request binds as the first did
+				out = append(out, caseT{T: ct.E.Name, Tag: 0, Entry: "T", Binder: true, Opts: optsT{-1, -1, 11, false, false, nil}, NT: true, Src: kv, Soak: 120000})
+				out = append(out, caseT{T: ct.E.Name, Tag: 0, Entry: "G", Binder: true, Opts: optsT{-1, -1, 12, false, false, nil}, NT: true, Src: kv, Soak: 120000})
 				found = true
 				break
 			}
@@ -2249,6 +2365,7 @@ func main() {
 	defer w.Flush()
 	log.SetOutput(io.Discard) // net/http reports every cookie byte it sanitises
 	loadCorpus()
+	injectFault()
 	switch a.Cmd {
 	case "gen":
 		r := hx.NewRand(a.Seed)
